@@ -1442,3 +1442,91 @@ End RunSemantics2.
    all counters from a snapshot (as the MPI variant does) would give 3, 6, 0. *)
 Example counter_aliasing : riar_update 3 [false; true; true] [0; 2; 5] = [1; 6; 5].
 Proof. reflexivity. Qed.
+
+(* ================================================================== more facts about the next block *)
+Section NextBlockFacts.
+Variable T : Type.
+Variable N : ConvCtrl.num T.
+Variable le : T -> T -> Prop.
+Hypothesis lt_le : forall a b, nltb N a b = true -> le a b.
+Hypothesis nlt_ge : forall a b, nltb N a b = false -> le b a.
+
+Lemma spread_value_le c size r times d x : le (spread_value T N c size r times d x) d.
+Proof.
+  unfold spread_value. destruct (c_overwrite c).
+  - apply (pmin_le_left T N le lt_le nlt_ge).
+  - apply (le_refl_free T N le lt_le nlt_ge).
+Qed.
+
+(* whatever the aliasing does: no step of the next block gets more than the proposal that is spread *)
+Theorem spread_all_le c size flags dtnews times dts sf r d :
+  spread_from N c size flags dtnews = (sf, r) -> nth sf dtnews None = Some d ->
+  size <= length dts ->
+  forall i, i < size -> le (nth i (spread_update N c size flags dtnews times dts) (n0 N)) d.
+Proof.
+  intros Hsf Hd. unfold spread_update.
+  assert (H : forall m ds0, m <= length ds0 ->
+            let res := fold_left (fun ds i => spread_step N c size flags dtnews times i ds) (seq 0 m) ds0 in
+            length res = length ds0 /\ forall k, k < m -> le (nth k res (n0 N)) d).
+  { induction m as [|m IH]; intros ds0 Hm; cbv zeta.
+    - simpl. split; [reflexivity | intros; lia].
+    - rewrite seq_S, fold_left_app. simpl fold_left.
+      destruct (IH ds0) as (IHl & IHk); [lia|].
+      set (res := fold_left _ (seq 0 m) ds0) in *.
+      rewrite (spread_step_eq T N c size flags dtnews times m res sf r d Hsf Hd).
+      split; [rewrite upd_length; exact IHl|].
+      intros k Hk. destruct (Nat.eq_dec k m) as [->|Hne].
+      + rewrite nth_upd_same by lia. apply spread_value_le.
+      + rewrite nth_upd_other by auto. apply IHk. lia. }
+  intros Hl i Hi. destruct (H size dts Hl) as (_ & Hk). apply Hk. exact Hi.
+Qed.
+
+(* the steps of the next block are contiguous: time[i] = time[i-1] + dt[i-1] *)
+Theorem times_update_contiguous size dts times i :
+  size <= length times -> 1 <= i -> i < size ->
+  nth i (times_update N size dts times) (n0 N) =
+  nadd N (nth (i - 1) (times_update N size dts times) (n0 N)) (nth (i - 1) dts (n0 N)).
+Proof.
+  intros Hl Hi1 Hi. unfold times_update.
+  (* after the calls for 1..m, entries 1..m satisfy the relation and entries > m are untouched *)
+  assert (H : forall m, m < size ->
+            let res := fold_left (fun ts j => time_step N dts j ts) (seq 1 m) times in
+            length res = length times /\
+            (forall k, 1 <= k -> k <= m -> nth k res (n0 N) = nadd N (nth (k - 1) res (n0 N)) (nth (k - 1) dts (n0 N)))).
+  { induction m as [|m IH]; intros Hm; cbv zeta.
+    - simpl. split; [reflexivity | intros; lia].
+    - rewrite seq_S, fold_left_app. simpl fold_left. replace (1 + m) with (S m) by lia.
+      destruct IH as (IHl & IHk); [lia|].
+      set (res := fold_left _ (seq 1 m) times) in *.
+      unfold time_step. split; [rewrite upd_length; exact IHl|].
+      intros k Hk1 Hk. replace (S m - 1) with m by lia.
+      destruct (Nat.eq_dec k (S m)) as [->|Hne].
+      + rewrite nth_upd_same by lia. replace (S m - 1) with m by lia.
+        rewrite nth_upd_other by lia. reflexivity.
+      + rewrite nth_upd_other by auto. rewrite nth_upd_other by lia. apply IHk; lia. }
+  destruct (H (size - 1)) as (_ & Hk); [lia|]. apply Hk; lia.
+Qed.
+
+End NextBlockFacts.
+
+(* the other counters after a restart from slot j: the step that moves from slot j+k to slot k (k >= 1)
+   carries its own counter plus one — only the step that moves to slot 0 loses its history *)
+Theorem riar_update_shifted size flags riars j k :
+  length flags = size -> size <= length riars ->
+  first_true flags = Some j -> 1 <= k -> j + k < size -> nth (j + k) flags false = true ->
+  nth k (riar_update size flags riars) 0 = nth (j + k) riars 0 + 1.
+Proof.
+  intros Hf Hr E Hk Hjk Hfl. unfold riar_update.
+  rewrite (seq_split size (j + k)) by lia. rewrite fold_left_app. simpl fold_left.
+  rewrite riar_fold_other.
+  2:{ intros i Hi. apply in_seq in Hi. unfold widx, rfrom. rewrite E.
+      replace (i <? j) with false by (symmetry; apply Nat.ltb_ge; lia). lia. }
+  set (rs1 := fold_left _ (seq 0 (j + k)) riars).
+  assert (Hlen : length rs1 = length riars) by (unfold rs1; apply riar_fold_length).
+  assert (Hold : nth (j + k) rs1 0 = nth (j + k) riars 0).
+  { unfold rs1. apply riar_fold_other. intros i Hi. apply in_seq in Hi. unfold widx, rfrom. rewrite E.
+    destruct (i <? j) eqn:Ei; [apply Nat.ltb_lt in Ei | apply Nat.ltb_ge in Ei]; lia. }
+  unfold riar_step. rewrite E.
+  replace (j + k <? j) with false by (symmetry; apply Nat.ltb_ge; lia).
+  replace (j + k - j) with k by lia. rewrite Hfl, Hold. apply nth_upd_same. lia.
+Qed.
